@@ -1,6 +1,7 @@
 (* C06 - loss response. *)
 From Coq Require Import ZArith Reals List Lia Lra.
 From Flocq Require Import Core BinarySingleNaN.
+From GCL Require Proofs.TablesOk.
 From GCL Require Import Base.F64 Base.F64Facts Model.Measure Model.Limits Proofs.AimdProofs.
 
 (* AIMD moves exactly to max(1, min(limit-1, floor(limit x ratio))), the product being the binary64 product
@@ -15,3 +16,10 @@ Theorem C06_aimd_nonincrease l ratio : (1 <= l < 2^52)%Z -> fin ratio = true -> 
   (1 <= aimd_drop_limit l ratio <= Z.max 1 (l - 1))%Z.
 Proof. exact (aimd_drop_bounds l ratio). Qed.
 Print Assumptions C06_aimd_nonincrease.
+
+(* Generated-fact obligation, re-checked on every run against Gen/Tables.v (dumped from /repo's limit/functions as built now):
+   the lookup tables and the queue-size / log10 functions agree with the model's closed forms on the table,
+   at its boundary and beyond it. *)
+Theorem C06_tables_agree : TablesOk.tables_ok = true /\ TablesOk.functions_ok = true /\ TablesOk.log10f_ok = true.
+Proof. exact (conj TablesOk.tables_agree (conj TablesOk.functions_agree TablesOk.log10f_agrees)). Qed.
+Print Assumptions C06_tables_agree.
